@@ -49,12 +49,12 @@ class NumericArray(list):
   (Python-style, i.e. range[1] is not included)
   """
 
-  INT_REGEX = r"^[-+]?[0-9]+$"
+  INT_REGEX = r"^[-+]?[0-9]+\Z"
   """
   Regular expression for the elements of integer arrays
   """
 
-  FLOAT_REGEX = r"^[-+]?[0-9]*\.?[0-9]+([eE][-+]?[0-9]+)?$"
+  FLOAT_REGEX = r"^[-+]?[0-9]*\.?[0-9]+([eE][-+]?[0-9]+)?\Z"
   """
   Regular expression for the elements of float arrays
   """
